@@ -41,11 +41,19 @@ def ok (vars : PyDict S S) (d : Option LcDoc) (o : Obs) : Bool :=
     | none => []
     | some d => relevant vars (master0 d)
   !o.raised
-  && eqv o.after (applyAll vars m) && o.after.length == vars.length
+  && o.after == applyAll vars m
   && (o.callbacks == [m.map (·.1)] || (m.isEmpty && o.callbacks.isEmpty))
 
 /-- any value (well-formed or not): expansion never raises -/
 def okAny (o : Obs) : Bool := !o.raised
+
+/-- the shape the renderer guarantees (decidable form of `WF`, Lemmas/C19): no `val` on the root,
+    non-empty instance ids, colon-free prefixes and local names, no unprefixed entry called InstanceID -/
+def wfEntryB (e : Entry) : Bool :=
+  !e.name.contains ':' && (match e.pfx with | some p => !p.contains ':' | none => e.name != sInstanceID)
+
+def wfB (d : LcDoc) : Bool :=
+  (get? d.rootAttrs sVal).isNone && d.insts.all fun i => !i.id.isEmpty && i.entries.all wfEntryB
 
 def observe (vars : PyDict S S) : Except PyErr (PyDict S S × List (List S)) → Obs
   | .error _ => ⟨true, vars, []⟩
